@@ -22,6 +22,10 @@ func NewServerTLSConfig(ctx context.Context, certs []tls.Certificate, cquery cty
 		ClientAuth:         tls.RequestClientCert,
 		InsecureSkipVerify: true, // nolint: gosec
 		MinVersion:         tls.VersionTLS13,
+		// VerifyPeerCertificate is not invoked on resumed connections: with session tickets a client
+		// whose certificate has been revoked on chain keeps getting in by resuming its session.
+		// every connection must go through the on-chain lookup, so resumption is turned off
+		SessionTicketsDisabled: true,
 		VerifyPeerCertificate: func(certificates [][]byte, _ [][]*x509.Certificate) error {
 			if len(certificates) > 0 {
 				if len(certificates) != 1 {
